@@ -634,6 +634,17 @@ def E_pip(rng, tier):
                     except (ValueError, AssertionError):
                         pass
                 yield f"poly{pi}|npt={npt}|nprint={nprint}", thunk
+    if tier == "thorough":
+        # more points than INT_MAX / 100 with the progress log switched on (percentages
+        # computed in integer arithmetic overflow there); needs ~0.5 GB for a minute
+        def many_points():
+            npt = 21_600_000
+            pts = np.zeros((npt, 2))
+            pts[:, 0] = 0.5
+            pts[:, 1] = 0.5
+            sq = np.array([[0., 0.], [1., 0.], [1., 1.], [0., 1.]])
+            gutils.points_inside_polygon(pts, sq, nprint=5_000_000)
+        yield "many-points|npt=21.6e6|nprint=5e6", many_points
 
 
 def _catch(codes):
